@@ -1052,6 +1052,17 @@ Lemma column_session_current_values (ident : list N) (c : column) (pre : list co
   nth (length pre) (crun ident c (pre ++ op :: post)) None = cout ident (fold_left capply pre c) op.
 Proof. apply column_session_current. Qed.
 
+(* ---------- Round 6: the caller's list converted several times ---------- *)
+Lemma caller_list_sessions (R T : Type) (process_table : T -> N -> list R) (rows_of : T -> list R) :
+  (forall t b, (1 <= b)%N -> process_table t b = rows_of t) ->
+  forall (tables : list T) (ops : list (option N * list iop)),
+  lrun process_table tables ops =
+  map (fun op => (ispec (limit (fst op) (concat (map rows_of tables))) (snd op), length tables)) ops.
+Proof.
+  intros H tables ops. induction ops as [|op ops IH]; [reflexivity|].
+  cbn [lrun lstep map]. rewrite IH. rewrite (from_arrow_irun R T process_table rows_of H). reflexivity.
+Qed.
+
 (* the concrete instances used by the correspondence satisfy the oracle premises *)
 Lemma pt_rows_ok : forall (t : list (list cell)) (b : N), (1 <= b)%N -> pt_rows t b = (fun x => x) t.
 Proof. reflexivity. Qed.
